@@ -156,6 +156,8 @@ class MultiMatcher(mcore.Matcher):
         self._next_matcher()
 
     def children(self):
+        if not self.is_active():
+            return []
         return [self.matchers[self.current]]
 
     def _next_matcher(self):
